@@ -89,6 +89,8 @@ def check(ctx, tier):
     obs += ctx.attempt(scanner.numeric_token_table, ctx, "D-n", default=[])
     obs += ctx.attempt(lambda c, cl: mergetable.invariants(c, cl, which=('figures', 'direction', 'coverage', 'cardinality'))[0], ctx, "D-o", default=[])
     obs += ctx.attempt(lambda c, cl: scanner.rdflib_literal_datatype_source(c, cl)[0], ctx, "D-p", default=[])
+    from ..rules import profile as _profile
+    obs += ctx.attempt(lambda c, cl: _profile.tables(c, cl, ('reference',))[0], ctx, "D-q", default=[])
     exceptions.apply(obs)
     floors = [Floor("accumulator increments (+= 1)", counts.get("inc", 0), 9), Floor("absence initialisations", counts.get("init", 0), 20),
               Floor("class appends", counts.get("append", 0), 4), Floor("accumulation loops", n_loops, 8),
